@@ -78,8 +78,8 @@ def _perturbed_world(h, w, x0, cols_changed):
     return w2
 
 
-def _get_units_pair(h, kind):
-    w = World(h, ["turnout"])
+def _get_units_pair(h, kind, estimands=("turnout",)):
+    w = World(h, list(estimands))
     u = w.root.u
     x0 = z3.Int("x_perturbed_unit")
     h.syms["x_perturbed_unit"] = x0
@@ -89,7 +89,10 @@ def _get_units_pair(h, kind):
     ublk, pblk = symlist(h, "unit_blocklist"), symlist(h, "postal_code_blocklist")
     at = lambda t: z3.substitute(t, (u, x0))  # noqa: E731
     c = w.cols
-    changed = ["results_turnout", "results_weights", "turnout_factor"]
+    # every live column of the unit that depends on its counts
+    live = ["results_turnout", "results_weights"] + (["results_margin", "results_normalized_margin"] if "margin" in estimands else [])
+    live = [x for x in live if x in w.data.cols]
+    changed = live + ["turnout_factor"]
     if kind == "below_threshold":
         h.requires("x_is_outstanding", at(w.inData(u)), at(c["percent_expected_vote"]) < thr.t)
     elif kind == "blocklisted":
@@ -97,7 +100,7 @@ def _get_units_pair(h, kind):
     elif kind == "zero_baseline":
         bw = at(c["baseline_weights"])
         h.requires("x_has_zero_baseline", at(w.inData(u)), bw == 0)
-        changed = ["results_turnout", "results_weights"]  # turnout_factor stays 0 (0 denominator -> 0)
+        changed = list(live)  # turnout_factor stays 0 (0 denominator -> 0)
     elif kind == "unexpected":
         h.requires("x_is_unexpected", at(w.inFeed(u)), z3.Not(at(w.inData(u))))
     w2 = _perturbed_world(h, w, x0, changed)
@@ -113,10 +116,12 @@ def _get_units_pair(h, kind):
     return w, x0, outs, None
 
 
-def _gu(kind):
-    @unit("C10", f"get_units.{kind}", fns=[f"{CDH}.get_units", f"{CDH}._get_non_modeled_units", f"{CDH}._get_unexpected_units"])
+def _gu(kind, estimands=("turnout",)):
+    suffix = "" if tuple(estimands) == ("turnout",) else "." + "_".join(estimands)
+
+    @unit("C10", f"get_units.{kind}{suffix}", fns=[f"{CDH}.get_units", f"{CDH}._get_non_modeled_units", f"{CDH}._get_unexpected_units"])
     def gu(h):
-        w, x0, outs, failed = _get_units_pair(h, kind)
+        w, x0, outs, failed = _get_units_pair(h, kind, estimands)
         if failed is not None or outs is None:
             return
         (r1, n1, t1), (r2, n2, t2) = outs
@@ -125,12 +130,14 @@ def _gu(kind):
         other = u != x0
 
         def rp(ev):
+            if kind == "zero_baseline":
+                return {"target": "verif_replays:zero_baseline_count_changes_other_units", "args": [], "check": "result['exc'] is None and result['ok']"}
             return {"target": "verif_replays:blocklisted_count_changes_other_categories", "args": [], "check": "result['exc'] is None and result['changed_other_units'] == 0"}
 
         h.ensures("every_other_unit_stays_in_its_frame", z3.Implies(z3.And(facts, other), z3.And(r1.axis.present() == r2.axis.present(), n1.axis.present() == n2.axis.present(), t1.axis.present() == t2.axis.present())), replay=rp)
         h.ensures("perturbed_unit_stays_where_it_was", z3.Implies(z3.And(facts, u == x0), z3.And(r1.axis.present() == r2.axis.present(), n1.axis.present() == n2.axis.present(), t1.axis.present() == t2.axis.present())))
         for nm, a, b in (("reporting", r1, r2), ("nonreporting", n1, n2)):
-            for ccol in ("results_turnout", "unit_category"):
+            for ccol in [f"results_{e}" for e in estimands] + ["unit_category"]:
                 h.ensures(f"{nm}.{ccol}_of_other_units_unchanged", z3.Implies(z3.And(*b.axis.facts(), other), a.col(ccol).t == b.col(ccol).t))
         cat1, cat2 = t1.col("unit_category"), t2.col("unit_category")
         if t1.axis.sel is not None and t2.axis.sel is not None and len(t1.axis.doms) == len(t2.axis.doms):
@@ -142,6 +149,7 @@ def _gu(kind):
 
 for _k in ("below_threshold", "blocklisted", "zero_baseline", "unexpected"):
     _gu(_k)
+    _gu(_k, ("margin",))  # with the margin estimand the second outlier model reads a response that depends on the counts
 
 
 @unit("C10", "conformal.unit_predictions_and_intervals", fns=[f"{CO}.get_unit_predictions", f"{NP}.get_unit_prediction_intervals", f"{CO}.get_unit_prediction_interval_bounds"])
